@@ -52,7 +52,7 @@ RULE = ("source classes from hierarchies of 1..5 classes (mutable, ImmutableStru
         "are drawn from EVERY declaration of that name in the source's hierarchy; "
         "compositions of 1..3 operators drawn from Partial / AllFieldsRequired / Extend / Omit / Pick (subscript, "
         "named subscript and Structure.omit/pick spellings) over random subsets of the field names (incl. repeated and "
-        "unknown names; the names argument of Omit / Pick passed as tuple, list, set, frozenset, dict keys view, generator "
+        "unknown names - fresh ones and names that ARE attributes / methods / internal names of the class: omit, pick, _required, _fields, __init__, __doc__ ...; a third of the Omit / Pick calls give no class name: Foo.omit(...), Omit[Foo, names], incl. the empty subset, where the result must still be a new class; the names argument of Omit / Pick passed as tuple, list, set, frozenset, dict keys view, generator "
         "expression, iter(list), filter / map object or a bare one-character str), derived classes further extended by subclassing with new / redeclared fields and derived "
         "again; per retained field a shared value stream (valid, boundary neighbours, type confusion, None) on source "
         "vs derived; every source / derived / extending class is rendered through the bridge (FieldDecl.struct vs the real "
